@@ -1,7 +1,7 @@
 # Native witness for the recorded C06 finding: the input key of a call with a set-valued captured argument depends on PYTHONHASHSEED.
 # exit 0 = same key under all seeds tried, 1 = keys differ.
 import os, subprocess, sys
-CODE = "import sys; sys.path.insert(0, '/repo'); from playback.tape_recorder import TapeRecorder; print(TapeRecorder._input_interception_key('a', None, True, {'x', 'y', 'zz', 'w1', 'q9'}))"
+CODE = "import sys, os; sys.path.insert(0, os.environ.get('PYVC_REPO', '/repo')); from playback.tape_recorder import TapeRecorder; print(TapeRecorder._input_interception_key('a', None, True, {'x', 'y', 'zz', 'w1', 'q9'}))"
 keys = set()
 for seed in ('1', '2', '3', '4'):
     out = subprocess.run([sys.executable, '-c', CODE], capture_output=True, text=True, env=dict(os.environ, PYTHONHASHSEED=seed)).stdout.strip()
